@@ -248,6 +248,9 @@ TEXT_IDENTITIES = {
     'I3': ('=LEN(A5&A7)=LEN(A5)+LEN(A7)', True), 'I4': ('=EXACT(REPLACE(A7,4,2,"XY"),LEFT(A7,3)&"XY"&MID(A7,6,LEN(A7)))', True),
     'I5': ('=FIND("i",A7,1)', 6), 'I6': ('=FIND("i",A7,7)', 11), 'I7': ('=LEN(A7)', 12), 'I8': ('=TRIM(A8)', 'two words'),
     'I9': ('=UPPER(A9)', '\u00c4BC'), 'I10': ('=LOWER(A9)', '\u00e4bc'), 'I11': ('=LEFT(A5,0)', ''), 'I12': ('=MID(A5,2,50)', 'bc'),
+    'I16': ('=ISTEXT(A10&"")', True), 'I17': ('=ISTEXT(""&A2)', True), 'I18': ('=(A10&"")="7"', True), 'I19': ('=ISNUMBER(A6&"")', False), 'I20': ('=LEN(""&A9&"")', 3),
+    'I21': ('=EXACT("caf\u00e9","cafe\u0301")', False), 'I22': ('=EXACT("\u00c5","A\u030a")', False), 'I23': ('=EXACT("caf\u00e9","caf\u00e9")', True),
+    'I24': ('=LEN("cafe\u0301")', 5), 'I25': ('=EXACT("\uac00","\u1100\u1161")', False),
     'I13': ('=RIGHT(A7,4)', '"hi"'), 'I14': ('=EXACT(A5,"ABC")', False), 'I15': ('=FIND("I",A7)', '#VALUE!'),
 }
 
